@@ -291,6 +291,7 @@ func (fr *Frame) recordWrite(p Ptr) { fr.recordWriteT(p, nil) }
 
 func (fr *Frame) recordWriteT(p Ptr, t types.Type) {
 	if fr.dry == nil {
+		fr.v.noteWrite(p.H)
 		return
 	}
 	k := p.H.String()
@@ -1242,6 +1243,18 @@ func (st *State) keyTerm(k Value) (*Term, error) {
 	switch x := k.(type) {
 	case Scalar:
 		return x.T, nil
+	case Iface:
+		// interface-typed keys: (dynamic type, payload) encoded as an Int term
+		if x.Dyn != nil {
+			if sc, ok := x.V.(Scalar); ok {
+				return UF("ikey_"+sc.T.Sort.Name, SInt, st.eng.tidOf(x.Dyn), sc.T), nil
+			}
+			if p, ok := x.V.(Ptr); ok && len(p.Path) == 0 {
+				return UF("ikey_Int", SInt, st.eng.tidOf(x.Dyn), p.H), nil
+			}
+		} else {
+			return UF("ikey_Int", SInt, x.Tid, x.Box), nil
+		}
 	}
 	return st.handleOf(k)
 }
